@@ -333,7 +333,7 @@ UNDEF = T("undef")
 MUTATORS = {"append", "extend", "insert", "pop", "clear", "update", "setdefault", "remove", "sort", "reverse",
             "popitem", "add", "discard", "appendleft"}
 
-BUILTINS = {"hex", "str", "bool", "int", "len", "list", "tuple", "sorted", "map", "filter", "any", "all", "range",
+BUILTINS = {"slice", "hex", "str", "bool", "int", "len", "list", "tuple", "sorted", "map", "filter", "any", "all", "range",
             "isinstance", "chr", "ord", "enumerate", "zip", "min", "max", "sum", "reversed", "print", "open", "dict",
             "set", "repr", "abs", "getattr", "setattr", "hasattr", "iter", "next", "bytes", "bytearray", "float",
             "type", "id", "round", "divmod", "frozenset", "callable", "super", "oct", "bin", "format", "vars",
@@ -424,6 +424,44 @@ class Interp:
     def fresh(self) -> int:
         return next(self._ids)
 
+    def computed_table(self, mod: ModuleInfo, name: str) -> Optional[T]:
+        """`NAME = build(ROWS, ...)` at module level - a table computed once by a package function from other module-level
+        tables: the dict it evaluates to (constant keys), or None.  The module must not change NAME afterwards."""
+        cache = self.__dict__.setdefault("_computed_tables", {})
+        k = (mod.name, name)
+        if k in cache:
+            return cache[k]
+        cache[k] = None
+        node = mod.constants.get(name)
+        if not isinstance(node, ast.Call):
+            return None
+        dn = self.repo.dotted(mod, node.func)
+        f = self.repo.lookup(dn) if dn and dn.startswith("pykdebugparser.") else None
+        if not f or f[0] != "func":
+            return None
+        stores = 0
+        for x in ast.walk(mod.tree):
+            if isinstance(x, ast.Name) and x.id == name and isinstance(x.ctx, ast.Store):
+                stores += 1
+            if isinstance(x, (ast.Subscript, ast.Attribute)) and isinstance(x.ctx, (ast.Store, ast.Del)) \
+                    and isinstance(x.value, ast.Name) and x.value.id == name and not any(
+                        isinstance(fn_, ast.FunctionDef) and any(y is x for y in ast.walk(fn_)) and fn_.decorator_list == []
+                        and False for fn_ in ()):
+                return None
+            if isinstance(x, ast.Call) and isinstance(x.func, ast.Attribute) and x.func.attr in MUTATORS \
+                    and isinstance(x.func.value, ast.Name) and x.func.value.id == name:
+                return None
+        if stores != 1:
+            return None
+        rec = Record()
+        fr = _Frame(self, mod, None, None, rec, f"{mod.name}.<module>", 0, ())
+        v = fr.eval(node, State({}, {}, ()))
+        while v.op == "mut":
+            v = v.a[0]
+        if v.op == "dict" and v.a[0] and all(kk.op == "const" for kk, _ in v.a[0]) and not rec.notes:
+            cache[k] = v
+        return cache[k]
+
     def namedtuple_fields(self, dotted: str):
         """Field names of a module-level `X = namedtuple('X', [...])` (or 'a b c' / 'a, b'), else None."""
         cache = self.__dict__.setdefault("_nt_cache", {})
@@ -511,6 +549,10 @@ class Interp:
             scan(body, False)
             self._simple_cache[k] = ok
         return self._simple_cache[k]
+
+
+_CONSTRUCTORS = {"slice", "list", "tuple", "dict", "set", "frozenset", "str", "int", "float", "bytes", "bytearray", "bool",
+                 "hex", "sorted", "range", "len"}
 
 
 def _literal_seq(node) -> bool:
@@ -2017,6 +2059,11 @@ class _Frame:
                 return T("slice", (base, lo, hi))
             return T("slice", (base, lo, hi, step))
         idx = self.eval(n.slice, st)
+        if idx.op == "call" and idx.a[0] == T("builtin", ("slice",)) and 1 <= len(idx.a[1]) <= 3 and not idx.a[2]:
+            # x[slice(stop)] / x[slice(start, stop[, step])] is x[start:stop:step]
+            sa = idx.a[1]
+            lo, hi, step = (NONE, sa[0], NONE) if len(sa) == 1 else (sa[0], sa[1], sa[2] if len(sa) == 3 else NONE)
+            return T("slice", (base, lo, hi)) if step == NONE else T("slice", (base, lo, hi, step))
         key = T("sub", (base, idx))
         if key in st.heap:
             self._old_value_loads(st.heap[key], key, base, idx, st, n)
@@ -2067,6 +2114,66 @@ class _Frame:
         self.rec.pops.append(POp("sub", base, idx, st.pc, self.loops, self.trys, self.seq(), self.qualname, n.lineno,
                                  n.col_offset, self.path_of(n.value, st)))
         return key
+
+    def _fold_isinstance(self, x: T, c: T) -> Optional[bool]:
+        """isinstance(x, C) when the shape of the term decides it (a literal, an object made by a known constructor, a
+        function) - None when it does not."""
+        if c.op == "tuple":
+            rs = [self._fold_isinstance(x, e) for e in c.a[0]]
+            if any(r is True for r in rs):
+                return True
+            return False if all(r is False for r in rs) else None
+        kind = None           # what x is: a builtin type name, ('nt', dotted), ('new', qualname), 'function'
+        if x.op == "const":
+            v = x.a[0]
+            if c.op == "builtin" and c.a[0] in ("int", "str", "bytes", "float", "bool", "tuple", "list", "dict", "set", "slice",
+                                                 "type"):
+                return isinstance(v, {"int": int, "str": str, "bytes": bytes, "float": float, "bool": bool, "tuple": tuple,
+                                      "list": list, "dict": dict, "set": set, "slice": slice, "type": type}[c.a[0]])
+            if c.op in ("class",) or (c.op == "global" and self.I.namedtuple_fields(c.a[0]) is not None):
+                return False
+            return None
+        if x.op in ("tuple", "list", "dict", "set"):
+            kind = x.op
+        elif x.op == "fstr":
+            kind = "str"
+        elif x.op in ("lambda", "func") or (x.op == "call" and x.a[0] == T("global", ("functools.partial",))):
+            kind = "function"
+        elif x.op == "call" and x.a[0].op == "builtin" and x.a[0].a[0] in ("slice", "list", "tuple", "dict", "set", "str", "bytes"):
+            kind = x.a[0].a[0]
+        elif x.op == "call" and x.a[0].op == "global" and self.I.namedtuple_fields(x.a[0].a[0]) is not None:
+            kind = ("nt", x.a[0].a[0])
+        elif x.op == "new":
+            kind = ("new", x.a[0])
+        elif x.op == "mut":
+            return self._fold_isinstance(x.a[0], c)
+        if kind is None:
+            return None
+        if c.op == "builtin":
+            if isinstance(kind, tuple):
+                return c.a[0] == "tuple" if kind[0] == "nt" else (False if c.a[0] in ("int", "str", "bytes", "float", "bool", "tuple",
+                                                                                      "list", "dict", "set", "slice") else None)
+            if kind == "function":
+                return False if c.a[0] != "object" else True
+            return kind == c.a[0] if c.a[0] in ("int", "str", "bytes", "float", "bool", "tuple", "list", "dict", "set", "slice") else None
+        if c.op == "global" and self.I.namedtuple_fields(c.a[0]) is not None:
+            return kind == ("nt", c.a[0])
+        if c.op == "class":
+            if isinstance(kind, tuple) and kind[0] == "new":
+                seen, todo = set(), [kind[1]]
+                while todo:
+                    q = todo.pop()
+                    if q == c.a[0]:
+                        return True
+                    if q in seen:
+                        continue
+                    seen.add(q)
+                    f = self.repo.lookup(q)
+                    if f and f[0] == "class":
+                        todo.extend(b for b in f[2].bases if b.startswith("pykdebugparser."))
+                return False
+            return False
+        return None
 
     def _singleton_instance(self, dotted: str) -> Optional[ClassInfo]:
         """`NAME = Cls()` at module level, Cls a package class without state of its own (no __init__, no fields): the class."""
@@ -2170,7 +2277,14 @@ class _Frame:
         """TABLE['key'] for a module-level dict literal with constant keys that nothing in its module changes afterwards (a
         specification table that decoders are generated from): the row's value, evaluated where the table is defined."""
         found = self.repo.lookup(dotted)
-        if not found or found[0] != "const" or not isinstance(found[2], ast.Dict) or self.depth >= self.I.inline_depth:
+        if not found or found[0] != "const" or self.depth >= self.I.inline_depth:
+            return None
+        if not isinstance(found[2], ast.Dict):
+            built = self.I.computed_table(found[1], dotted.rpartition(".")[2])
+            if built is not None:
+                for k, v in reversed(built.a[0]):
+                    if k.op == "const" and type(k.a[0]) is type(key) and k.a[0] == key:
+                        return v
             return None
         node, hmod = found[2], found[1]
         name = dotted.rpartition(".")[2]
@@ -2250,6 +2364,18 @@ class _Frame:
                 if isinstance(lo_v, int) and isinstance(hi_v, int):
                     idx = list(range(VALUES_ARITY))[lo_v:hi_v]
                     return [T("sub", (v.a[0], const(i))) for i in idx]
+        if v.op == "mut":
+            # a local list filled by unconditional append / extend calls, in order: [*a, b, *c]
+            chain = []
+            cur = v
+            while cur.op == "mut" and cur.a[1] in ("append", "extend") and len(cur.a[2]) == 1 and len(cur.a) == 3:
+                chain.append((cur.a[1], cur.a[2][0]))
+                cur = cur.a[0]
+            if cur.op == "list" and chain and not any(i.op == "star" for i in cur.a[0]):
+                out = list(cur.a[0])
+                for kind, x in reversed(chain):
+                    out.extend([x] if kind == "append" else self.expand_star(x, None))
+                return out
         return [T("star", (v,))]
 
     def e_Dict(self, n, st):
@@ -2364,7 +2490,9 @@ class _Frame:
             if folded is None and opname in ("is", "is not") and NONE in (left, right):
                 other = right if left == NONE else left
                 if other.op in ("bin", "fstr", "list", "tuple", "dict", "set", "comp", "new", "lambda", "func", "class", "enum") \
-                        or (other.op == "const" and other.a[0] is not None):
+                        or (other.op == "const" and other.a[0] is not None) \
+                        or (other.op == "call" and other.a[0].op == "builtin" and other.a[0].a[0] in _CONSTRUCTORS) \
+                        or (other.op == "call" and other.a[0].op == "global" and self.I.namedtuple_fields(other.a[0].a[0]) is not None):
                     folded = opname == "is not"         # the result of arithmetic / a literal / an object is never None
             if folded is None and opname in ("is", "is not"):
                 # `d.get(k, SENTINEL) is SENTINEL` (SENTINEL = object() at module level, never stored) is `k not in d`
@@ -2852,6 +2980,12 @@ class _Frame:
                 return _fstr_of([_fstr_value(args[0], "", args[1].a[0] if len(args) == 2 else "")])
             if b == "bool" and len(args) == 1 and args[0].op == "const":
                 return const(bool(args[0].a[0]))
+            if b == "isinstance" and len(args) == 2 and not kwargs:
+                f_ = self._fold_isinstance(args[0], args[1])
+                if f_ is not None:
+                    return const(f_)
+            if b == "slice" and 1 <= len(args) <= 3 and not kwargs and all(a.op == "const" for a in args):
+                pass            # stays a call term: x[slice(a, b)] is rewritten to the slice it is in e_Subscript
             if b == "len" and len(args) == 1:
                 a0 = args[0]
                 if a0.op == "const" and isinstance(a0.a[0], (str, bytes, tuple)):
